@@ -261,9 +261,9 @@ CHECKS = {
              "sides are exported on Polars and SQLite and must agree per backend, and every export is compared with the Lean Spec. Pdt/Props/C15Extra.lean: filter_commute, filter_idempotent, filter_split_table, "
              "union_swap_perm (union with swapped operands holds the same multiset of rows read by column name, distinct=False), shape / row verb commutation; "
              "Pdt/Props/C15Sql.lean: sql_transport and sql_filter_split, sql_filter_commute, sql_filter_idempotent, sql_rename_inverse, sql_mutate_split (the two spellings compile, "
-             "over any pipeline of the row-level fragment, to SELECT statements of the SQL compiler model with the same result). Partial: x.map (desugared in Python before "
-             "any model sees it) and union swap under distinct=True are established on the real code and by Spec comparison, not by a dedicated theorem; slice chains, "
-             "join vs cross join + filter and the window notation are transported to the SQL model by execution only. docs_stream enumerates the documented group_by / arrange / mutate / ungroup notation against partition_by= / arrange= for every marker combination on a nullable key, with and without a grouping, on Polars.",
+             "over any pipeline of the row-level fragment, to SELECT statements of the SQL compiler model with the same result); Pdt/Props/C15Base.lean: the same over any base with the row-level invariant (joins of source tables included) and sql_inner_eq_cross_filter (cross_join >> filter(on) and inner_join(on) compile to SELECTs with the same result). Partial: x.map (desugared in Python before "
+             "any model sees it) and union swap under distinct=True are established on the real code and by Spec comparison, not by a dedicated theorem; slice chains "
+             "and the window notation are transported to the SQL model by execution only. docs_stream enumerates the documented group_by / arrange / mutate / ungroup notation against partition_by= / arrange= for every marker combination on a nullable key, with and without a grouping, on Polars.",
         design_ref="DESIGN.md section 5, C15",
         note=NOTE_COMMON + "Known finding D9: on SQL the arrange verb is not used as the order of a window function without arrange= (documented notation).",
     ),
